@@ -54,6 +54,10 @@ CHECKS = {
  'C05': dict(engine='Types', design='6 (C05)', technique='TLA+ spec Types.tla enumerates (TLC) type chains, constraint alternatives over symbolic boundary values in every literal form, enumerations/BITS, and the DEFVAL notation x base-class table, and defines BaseOf/ExpDefval; rendered module pairs compiled by the real MibCompiler with both generators, pysnmp classes read through the real MibBuilder; observations validated by TLC (TypesTrace)',
              text='Compiles, SyntaxParent, ChainLinks, ChainDefval, SyntaxExact (every range/SIZE alternative in order, denoting the written integers; decimal/hex/binary spellings of one value agree), NamedExact, DefvalFaithful for chains of 0-3 derived types (assignment / TEXTUAL-CONVENTION, refined, imported, any declaration order, namesake decoys), boundary values of all numeric token classes, every DEFVAL notation against every base class at chain depth 0-2.',
              note='Trusted: TLC; renderer; harness tables resolving symbolic value ids and default denotations. Scope: quick tier replays all defval/named scenarios and seeded samples (1500 each) of the chain and range families through JSON, 350 of them through pysnmp. 64-bit arithmetic is never done in TLC (symbolic ids). Open findings on the pysnmp side are listed in known_findings.json.'),
+
+ 'C15': dict(engine='Texts', design='6 (C15)', technique='TLA+ spec Texts.tla defines texts as sequences of character classes with the emission rule, the whitespace normalisation and equality up to whitespace; TLC enumerates clause x genTexts x filter x text; rendered modules compiled by the real MibCompiler with both generators (pysnmp module executed by the real MibBuilder); observed strings tokenised back into classes and validated by TLC (TextsTrace)',
+             text='OnlyWhenRequested, JsonExact (exact with the identity filter, whitespace-normalised with the default one), PysnmpEqual (equal up to whitespace after executing the module), AlwaysCompilable, for every text-bearing clause (DESCRIPTION, REFERENCE, ORGANIZATION, CONTACT-INFO, UNITS, DISPLAY-HINT, PRODUCT-RELEASE, revision description), genTexts on/off, both filters, all texts of <=2 (quick) / <=3 (thorough) classes out of 16 (words, blanks, TAB, LF, CRLF, CR, backslash, apostrophes, non-ASCII, 90-character word, braces, percent, hash, empty).',
+             note='Trusted: TLC; the class representatives and the tokeniser in checks/texts.py. Scope: texts of at most 3 classes; quick tier replays a seeded sample of 3500 scenarios through JSON and 400 through pysnmp. A line break inserted by word wrapping inside a word longer than the line counts as whitespace (DESIGN reading). Revision descriptions are not part of pysnmp output.'),
 }
 PENDING = 'check under construction in this round; will be claimed when its TLA+ spec, replay and trace validation exist'
 
@@ -73,6 +77,7 @@ m = {
              {'name': 'Decls', 'path': 'specs/Decls.tla', 'serves_properties': ['C03'], 'kind_free_text': 'TLA+ builder of declaration lists with ExpectedDoc; DeclsTrace.tla'},
              {'name': 'Refs', 'path': 'specs/Refs.tla', 'serves_properties': ['C06'], 'kind_free_text': 'TLA+ enumeration of structural references (tables, lists, compliance) with expected targets; RefsTrace.tla'},
              {'name': 'Types', 'path': 'specs/Types.tla', 'serves_properties': ['C05'], 'kind_free_text': 'TLA+ enumeration of syntaxes, constraints and defaults with BaseOf / ExpDefval ground truth; TypesTrace.tla'},
+             {'name': 'Texts', 'path': 'specs/Texts.tla', 'serves_properties': ['C15'], 'kind_free_text': 'TLA+ model of texts as character-class sequences with emission rule and whitespace normalisation; TextsTrace.tla'},
              {'name': 'OidIndex', 'path': 'specs/OidIndex.tla', 'serves_properties': ['C18'], 'kind_free_text': 'TLA+ model of the persistent OID->module index and its merge/compaction; OidIndexTrace.tla'}],
  'checks': [], 'not_applicable': [],
  'notes': 'All checks: cwd=/verif, ./check <id> --tier quick|thorough; exit 0 pass, 1 violation (VIOLATION line), 2 machinery failure. known_findings.json lists open findings and fixed: records.',
